@@ -76,6 +76,16 @@ def odd_xy_meshes():
   return out
 
 
+_TREF_KINDS = ('random', 'cooling', 'linear', 'isothermal_top', 'plateau_cooling', 'tropopause')
+
+
+def _tref_kind(case):
+  """Reference-profile class of a case (cycled deterministically over the classes, so that sign- or
+  monotonicity-dependent branches of the vertical operators are all visited)."""
+  from vp import core  # pylint: disable=import-outside-toplevel
+  return _TREF_KINDS[core.crc(case['id']) % len(_TREF_KINDS)]
+
+
 def _tag(ms):
   return 'm%d%d%d' % tuple(ms)
 
@@ -773,7 +783,7 @@ def _run_implicit(case, M):
   si = model.phys_state_si(rng, g0, nl, decay=0.0)       # flat spectrum: every (m,l) matters
   st0 = model.to_state(si, specs, dtype=dt_)
   st1 = jax.tree_util.tree_map(lambda a: _dycore_put(a, mesh), _pad_state(st0, m1))
-  tref = model.tref_profile(rng, nl, kind='random')
+  tref = model.tref_profile(rng, nl, kind=_tref_kind(case))
   oro0 = np.zeros(m0, dt_)
   eta = float(specs.nondimensionalize(float(rng.choice([10.0, 20.0, 40.0])) * scales.units.minute))
   if not f64:
@@ -850,7 +860,7 @@ def _run_model(case, M):
   tracers = model.EQ_TRACERS[kind]
   st0 = model.to_state(model.phys_state_si(rng, g0, nl, tracers=tracers), specs, with_time=with_time, dtype=dt_)
   oro0 = model.nondim_orography(model.orography_si(rng, g0, lmax=5, height=1500.0), specs, dtype=dt_)
-  tref = model.tref_profile(rng, nl, kind='random')
+  tref = model.tref_profile(rng, nl, kind=_tref_kind(case))
   dt = float(specs.nondimensionalize(case['dt_min'] * scales.units.minute))
   integ = case['integrator']
   if integ == 'leap':
@@ -960,7 +970,7 @@ def _run_odd(case, M):
   c0 = model.make_coords(cfg0, bnd, specs)
   c1 = model.make_coords(cfg0, bnd, specs, mesh=mesh)
   st0 = model.to_state(model.phys_state_si(rng, c0.horizontal, nl), specs, dtype=dt_)
-  tref = model.tref_profile(rng, nl)
+  tref = model.tref_profile(rng, nl, kind=_tref_kind(case))
   eq1 = model.make_eq('dry', tref, np.zeros(m1, dt_), c1, specs)
   res = _reject_or_correct(M, 'odd_xy_mesh_rejected_or_correct',
                            lambda: jax.jit(eq1.explicit_terms)(_pad_state(st0, m1)).vorticity,
